@@ -401,6 +401,30 @@ pub fn c14b_groups(ctx: &Ctx) -> Vec<Group> {
             out.push(Group { name: format!("g{}{tag}", b.index), class, units });
         }
     }
+    // valid programs with an interface over two associated types (instantiated differently,
+    // often used in the order opposite to their declaration): accepted in every method order
+    let want = if ctx.quick() { 8 } else { 24 };
+    let gopts = GenOpts { allow_attrs: false, ..GenOpts::default() };
+    let mut found = 0;
+    for (i, tape) in crate::draw_tapes(ctx.seed ^ 0x14c, want * 30, 600).into_iter().enumerate() {
+        if found >= want {
+            break;
+        }
+        let p = gen_msg_program(&format!("a{i}"), tape, &gopts);
+        if !p.interfaces.iter().any(|x| x.assoc.len() >= 2) {
+            continue;
+        }
+        found += 1;
+        let mut units = vec![];
+        for (label, ri, rm) in [("declared", false, false), ("methods-reversed", false, true), ("both-reversed", true, true)] {
+            if ri && p.interfaces.len() < 2 {
+                continue;
+            }
+            let q = permuted(&p, ri, rm);
+            units.push((label.to_string(), Unit { name: format!("ga{i}_{}", label.replace('-', "_")), source: unit_source("sylvia", &render::render_source(&q, &opts)) }));
+        }
+        out.push(Group { name: format!("ga{i}"), class: "two-associated-types".into(), units });
+    }
     out
 }
 
